@@ -48,7 +48,12 @@ manifest = {
     "not_applicable": [{"property_id": p, "reason": NA[p]} for p in props if p in NA],
     "notes": "Exit codes: 0 held / only known findings; 1 VIOLATION (replayed on the real code); 2 harness error "
              "(stub validation failed, nothing decided, vacuity witness missing, counterexample did not replay). "
-             "Known findings: /verif/known_findings.json.",
+             "Known findings: /verif/known_findings.json. After the symbolic jobs every job is re-run as a ground twin (the same "
+             "harness function on the unshimmed library in doubles, inputs at range mid-points and at a seeded random point): "
+             "validation of encoding and oracle, and a concrete counterexample where a defect makes the symbolic run "
+             "intractable; a few jobs are ground-twin-only (listed in evidence.coverage.ground_twin_only_jobs). The thorough tier "
+             "scales its per-job budgets to a wall budget of 10 min per check (SYMX_WALL_S overrides); truncated jobs are "
+             "listed in the evidence. Seeded changes used to test the checks: /verif/seeded (table in DESIGN.md 9.5).",
 }
 json.dump(manifest, open(os.path.join(HERE, "MANIFEST.json"), "w"), indent=1)
 print("checks:", sorted(CHECKS), "not_applicable:", sorted(NA))
